@@ -130,6 +130,12 @@ func c03build() {
 				add("handle-on-dir:"+target+":"+op.K, append(append([]fsx.Step(nil), dir...), fsx.Step{K: "Open", P: target, Flag: os.O_RDONLY}, op, fsx.Step{K: "H.Close"})...)
 			}
 		}
+		// handles that outlive their name: the directory chain above the file is removed (or replaced by a file) and the handle is used again
+		for _, op := range []fsx.Step{{K: "H.Write", Data: "late"}, {K: "H.WriteAt", Data: "late", Off: 1}, {K: "H.Truncate", Off: 1}, {K: "H.Chmod", Perm: 0o600}, {K: "H.Chtimes", MTime: 1_500_000_000}, {K: "H.Sync"}, {K: "H.Close"}} {
+			add("stale-handle:parent-removed:"+op.K, append(append([]fsx.Step(nil), dir...), fsx.Step{K: "Open", P: "a/b/c", Flag: os.O_RDWR}, fsx.Step{K: "RemoveAll", P: "a"}, op, fsx.Step{K: "H.Close"})...)
+			add("stale-handle:parent-now-file:"+op.K, append(append([]fsx.Step(nil), dir...), fsx.Step{K: "Open", P: "a/b/c", Flag: os.O_RDWR}, fsx.Step{K: "RemoveAll", P: "a"}, fsx.Step{K: "WriteFullFile", P: "a", Data: "f", Perm: 0o644}, op, fsx.Step{K: "H.Close"})...)
+			add("stale-handle:renamed-away:"+op.K, append(append([]fsx.Step(nil), dir...), fsx.Step{K: "Open", P: "a/b/c", Flag: os.O_RDWR}, fsx.Step{K: "Rename", P: "a", P2: "c"}, op, fsx.Step{K: "H.Close"})...)
+		}
 		add("rename-across-mount-points", fsx.Step{K: "WriteFullFile", P: "c", Data: "top", Perm: 0o644}, fsx.Step{K: "Rename", P: "c", P2: "a/c"}, fsx.Step{K: "Rename", P: "a/c", P2: "a/b/c"},
 			fsx.Step{K: "Rename", P: "a/b/c", P2: "ab/c"}, fsx.Step{K: "Rename", P: "ab/c", P2: "c"}, fsx.Step{K: "Rename", P: "a", P2: "b"}, fsx.Step{K: "Rename", P: "a/b", P2: "b"}, fsx.Step{K: "RemoveAll", P: "a"})
 	})
@@ -189,12 +195,16 @@ func c03run(env *core.Env, idx int) core.CaseResult {
 	slots := map[int][2]string{} // slot -> path, situation of the path when the handle was opened
 	okMut, failed := 0, 0
 	tree, _ := fsx.Snapshot(sub.fs, nil)
-	check := func(st fsx.Step, sit string, i int) bool {
+	check := func(st fsx.Step, sit string, i int, sigOps ...string) bool {
+		opName := st.K
+		if len(sigOps) > 0 {
+			opName = sigOps[0]
+		}
 		probs, probes := fsx.Closure(sub.whole, cands)
 		res.Count("states_walked", 1)
 		res.Count("probes", probes)
 		for _, p := range probs {
-			res.Violate(fmt.Sprintf("C03|%s|%s|%s|%s", subjKind(sname), st.K, sit, p[0]),
+			res.Violate(fmt.Sprintf("C03|%s|%s|%s|%s", subjKind(sname), opName, sit, p[0]),
 				fmt.Sprintf("[%s] after step %d %s: %s", sname, i, st, p[1]), map[string]any{"subject": sname, "history": fsx.HistoryString(hist)})
 		}
 		return len(probs) == 0
@@ -209,6 +219,11 @@ func c03run(env *core.Env, idx int) core.CaseResult {
 				st = gen.Namespace(tree, !sub.viewTop)
 				if gen.R.Intn(5) == 0 {
 					st = c03handleStep(gen, tree)
+					if o, ok := slots[st.Slot]; ok && strings.HasPrefix(st.K, "H.") && st.K != "H.Close" && (o[1] == "file" || o[1] == "created") {
+						if now := fsx.PathSit(sub.fs, o[0]); (now == "noparent" || now == "belowfile") && env.Known.KnownSituation("C03", fmt.Sprintf("C03|%s|H.save|handle:file-whose-parent-is-gone|", subjKind(sname))) {
+							st.K = "H.Close" // (F20) do not save through a handle whose directory chain is gone
+						}
+					}
 				}
 				if try > 20 || !env.Known.KnownSituation("C03", fmt.Sprintf("C03|%s|%s|%s|", subjKind(sname), st.K, c03sit(sname, sub.fs, st))) {
 					break
@@ -221,11 +236,18 @@ func c03run(env *core.Env, idx int) core.CaseResult {
 			}
 		}
 		sit := c03sit(sname, sub.fs, st)
+		sigOp := st.K
 		if strings.HasPrefix(st.K, "H.") {
 			// a handle call: what the handle was opened on, and what its path names now
 			sit = "handle:none"
 			if o, ok := slots[st.Slot]; ok {
-				sit = fmt.Sprintf("handle:opened=%s,now=%s", o[1], fsx.PathSit(sub.fs, o[0]))
+				now := fsx.PathSit(sub.fs, o[0])
+				sit = fmt.Sprintf("handle:opened=%s,now=%s", o[1], now)
+				if (o[1] == "file" || o[1] == "created") && (now == "noparent" || now == "belowfile") {
+					// one situation (F20): a file handle whose directory chain is gone; which mutator saves the record back does not matter
+					sit = "handle:file-whose-parent-is-gone"
+					sigOp = "H.save"
+				}
 			}
 		}
 		hist = append(hist, st)
@@ -265,7 +287,7 @@ func c03run(env *core.Env, idx int) core.CaseResult {
 			res.Count("failed_steps_checked", 1)
 		}
 		res.Count("op:"+st.K, 1)
-		if !check(st, sit, i) {
+		if !check(st, sit, i, sigOp) {
 			break
 		}
 		if t2, prob := fsx.Snapshot(sub.fs, nil); prob == "" {
